@@ -13,8 +13,8 @@ def _jobs():
 
 PLAN = dict(
     level="exploration",
-    rule="every child process first races the process-wide singletons (16 goroutines whose very first library call is one of "
-         "10 first-use operations), then runs rounds: cold shared objects (SM2 private/public key, ECDH key, SM9 sign/encrypt "
+    rule="every child process first races the process-wide singletons (20 goroutines, two per each of "
+         "10 first-use operations, as their very first library call), then runs rounds: cold shared objects (SM2 private/public key, ECDH key, SM9 sign/encrypt "
          "master and user keys unmarshalled from bytes, SM4 block + shared GCM AEAD, certificate pools filled from PEM), 4/8/16 "
          "goroutines released from a barrier, each executing a seeded list of 3-8 of 34 operations with scripted randomness, then "
          "the same lists sequentially on a second cold object set; results must be identical and the race detector silent. "
